@@ -65,6 +65,9 @@ func plans(id, tier string) (Plan, bool) {
 			{Pkg: pkgV2, Harness: "c02_small", Params: fmt.Sprintf("dictoffset=65531;corpora=%d;maxlen=%d", pick(16, 16), pick(6, 8)), Shards: pick(4, 16)},
 			{Pkg: pkgV2, Harness: "c02_corpus", Params: "t=0.8", Shards: 16},
 			{Pkg: pkgV2, Harness: "c02_corpus", Params: "t=0.8;families=window;split=4", Shards: 16},
+			{Pkg: pkgV2, Harness: "c02_corpus", Params: "t=0.8;families=boundary;ndocs=" + fmt.Sprint(pick(100, 431)), Shards: 16},
+			{Pkg: pkgV2, Harness: "c02_corpus", Params: "t=0.9;families=boundary;ndocs=" + fmt.Sprint(pick(40, 431)), Shards: 16},
+			{Pkg: pkgV2, Harness: "c02_corpus", Params: "t=0.7;families=boundary;ndocs=" + fmt.Sprint(pick(40, 431)), Shards: 16},
 		}}, true
 	case "C03":
 		return Plan{Level: "exploration", Jobs: []Job{
@@ -96,6 +99,7 @@ func plans(id, tier string) (Plan, bool) {
 			{Pkg: pkgV2, Harness: "c05_match", Params: "mode=scenarios", Shards: pick(4, 8)},
 			{Pkg: pkgV2, Harness: "c05_match", Params: "mode=perline", Shards: pick(4, 16)},
 			{Pkg: pkgV2, Harness: "c05_match", Params: "mode=pairs", Shards: pick(8, 16)},
+			{Pkg: pkgV2, Harness: "c05_match", Params: "mode=notices", Shards: pick(4, 8)},
 		}
 		return Plan{Level: "exploration", Jobs: jobs}, true
 	case "C06":
@@ -103,6 +107,8 @@ func plans(id, tier string) (Plan, bool) {
 			{Pkg: pkgV2, Harness: "c06_tokens", Shards: pick(4, 16)},
 			{Pkg: pkgV2, Harness: "c06_history", Shards: 2},
 			{Pkg: pkgV2, Harness: "c06_match", Params: map[bool]string{false: "docs=431;positions=1", true: "docs=431;positions=12"}[th], Shards: 16},
+			// the same documents with every paragraph on one line (lines of hundreds of words)
+			{Pkg: pkgV2, Harness: "c06_match", Params: map[bool]string{false: "layout=unwrap;docs=431;positions=1;kinds=marker,split,notice", true: "layout=unwrap;docs=431;positions=6"}[th], Shards: 16},
 			{Pkg: pkgV2, Harness: "c06_match", Params: map[bool]string{false: "docs=4;maxbytes=1200;positions=0;kinds=notice,marker,split,splitnotice", true: "docs=60;maxbytes=6000;positions=0"}[th], Shards: 16},
 		}}, true
 	case "C07":
@@ -116,6 +122,7 @@ func plans(id, tier string) (Plan, bool) {
 				{Pkg: pkgV2, Harness: "c07_corpus", Params: "t=0.8;families=partnoise", Shards: 16},
 				{Pkg: pkgV2, Harness: "c07_corpus", Params: "t=0.8;families=partnoise,exact,truncate;contexts=huge;ndocs=120", Shards: 16},
 				{Pkg: pkgV2, Harness: "c07_corpus", Params: "t=0.8;families=exact,partnoise;contexts=pow2;ndocs=40", Shards: 16},
+				{Pkg: pkgV2, Harness: "c07_corpus", Params: "t=0.8;families=exact,partnoise;contexts=distinct;ndocs=24", Shards: 16},
 			}}, true
 		}
 		return Plan{Level: "exploration", Jobs: []Job{
@@ -125,6 +132,7 @@ func plans(id, tier string) (Plan, bool) {
 			{Pkg: pkgV2, Harness: "c07_corpus", Params: "t=0.8;docs=c07findings;families=scatter,periodic", Shards: 7},
 			{Pkg: pkgV2, Harness: "c07_corpus", Params: "t=0.8;families=partnoise,exact,truncate;contexts=huge;ndocs=" + fmt.Sprint(pick(24, 120)), Shards: 16},
 			{Pkg: pkgV2, Harness: "c07_corpus", Params: "t=0.8;families=exact,partnoise;contexts=pow2;ndocs=" + fmt.Sprint(pick(6, 40)), Shards: 16},
+			{Pkg: pkgV2, Harness: "c07_corpus", Params: "t=0.8;families=exact;contexts=distinct;ndocs=8", Shards: 8},
 		}}, true
 	case "C08":
 		return Plan{Level: "fault_enumeration", Jobs: []Job{
@@ -204,6 +212,7 @@ func plans(id, tier string) (Plan, bool) {
 		return Plan{Level: "exploration", Jobs: []Job{
 			{Pkg: pkgSC, Harness: "c13_occurrence", Instr: "v1", Shards: 16},
 			{Pkg: pkgSC, Harness: "c13_addvalue", Instr: "v1", Shards: pick(8, 16)},
+			{Pkg: pkgSC, Harness: "c13_history", Instr: "v1", Shards: pick(4, 16)},
 		}}, true
 	case "C14":
 		var jobs []Job
